@@ -137,8 +137,44 @@ def _nested_doc(toks, leaf="leaf"):
     return doc
 
 
+def _uri_decode_option(ctx):
+    """`uri_decode=True` reads %XX escapes (RFC 3986 percent-decoding) and nothing else: `+` is a plus sign."""
+    from jsonpath import JSONPointer
+
+    def pct(t):
+        out = bytearray()
+        i = 0
+        b = t.encode("utf-8")
+        while i < len(b):
+            if b[i:i + 1] == b"%" and i + 2 < len(b) + 0 and all(chr(x) in "0123456789abcdefABCDEF" for x in b[i + 1:i + 3]) and len(b[i + 1:i + 3]) == 2:
+                out.append(int(b[i + 1:i + 3], 16)); i += 3
+            else:
+                out.append(b[i]); i += 1
+        return out.decode("utf-8", "replace")
+    toks = ["a+b", "+", "+1", "1+1", "a%20b", "a%2Bb", "%2B", "a+%20", "é+", "x%41", "%", "%4", "a%zz", "~0+", "~1+a"]
+    for a in toks:
+        for b in ["", "k"] + toks[:6]:
+            text = "/" + a + ("/" + b if b else "")
+            ctx.count("uri-decode")
+            got = core.outcome(lambda: str(JSONPointer(text, uri_decode=True)))
+            want = core.outcome(lambda: str(JSONPointer(pct(text))))
+            gi = {"ok": got["ok"]} if "ok" in got else {"err": got["err"]}
+            wi = {"ok": want["ok"]} if "ok" in want else {"err": want["err"]}
+            if gi != wi:
+                ctx.violation("with uri_decode=True a pointer text means what its percent-decoded text means (a plus sign is a plus sign)", {"text": text}, gi, wi)
+            parts = [pct(x) for x in ([a, b] if b else [a])]
+            g2 = core.outcome(lambda: str(JSONPointer.from_parts([a] + ([b] if b else []), uri_decode=True)))
+            w2 = core.outcome(lambda: str(JSONPointer.from_parts(parts)))
+            if ({"ok": g2["ok"]} if "ok" in g2 else {"err": g2["err"]}) != ({"ok": w2["ok"]} if "ok" in w2 else {"err": w2["err"]}):
+                ctx.violation("from_parts with uri_decode=True builds the pointer of the percent-decoded tokens", {"tokens": [a] + ([b] if b else [])}, g2.get("ok", g2.get("err")), w2.get("ok", w2.get("err")))
+
+
 def evaluate(ctx, cases):
     from jsonpath import JSONPointer
+
+    if not getattr(ctx, "_uri_done", False):
+        ctx._uri_done = True
+        _uri_decode_option(ctx)
 
     reqs, meta = [], []
     for c in cases:
